@@ -46,7 +46,7 @@ Section Run.
       destruct (site u) as [code links|code|code|code [t|]]; try discriminate.
     all: try (intros [C|[C|C]]; try discriminate; try contradiction;
               (apply in_app_or in C; destruct C as [C|[C|[]]]; [|discriminate];
-               destruct (children scope p u links); cbn in C; [contradiction|destruct C as [C|[]]; discriminate])).
+               apply flush_In in C; destruct C as [k' [E _]]; discriminate E)).
     all: try (intros [C|[C|[C|[]]]]; discriminate).
     intros [C|[C|C]]; try discriminate. destruct (scope true t p tries).
     - now apply (IH p tries t false R).
@@ -67,9 +67,8 @@ Section Run.
   Proof.
     induction fuel as [|f IH]; intros p tries u ini i H; cbn [fetch] in H;
       destruct (site u) as [code links|code|code|code [t|]] eqn:S; cbn [adds_of] in H; try contradiction.
-    all: try (rewrite adds_of_app in H; cbn in H; rewrite app_nil_r in H;
-              assert (Hi : In i (children scope p u links))
-                by (destruct (children scope p u links); cbn in H; [contradiction | now rewrite app_nil_r in H]);
+    all: try (rewrite adds_of_app, adds_of_flush in H; cbn in H; rewrite app_nil_r in H;
+              assert (Hi : In i (children scope p u links)) by exact H;
               unfold children in Hi; apply filter_In in Hi; destruct Hi as [Hi Sc]; apply in_map_iff in Hi;
               destruct Hi as [l [<- Hl]]; exists u, code, links, l; auto).
     destruct (scope true t p tries); [eapply IH; eauto | cbn in H; contradiction].
@@ -80,24 +79,6 @@ Section Run.
     exists f code links l, site f = Doc code links /\ In l links /\ i = child_info p l /\ scope false f i 0 = true.
   Proof.
     unfold Engine.kids, Engine.plan. destruct (scope false (ri_url p) p tries); [apply fetch_adds | cbn; contradiction].
-  Qed.
-
-  Lemma flush_length l : (length (flush l) <= 1)%nat.
-  Proof. destruct l; cbn; lia. Qed.
-
-  Lemma fetch_length fuel : forall p tries u ini,
-    (length (fetch site scope fuel p tries u ini) <= 2 * fuel + 4)%nat.
-  Proof.
-    induction fuel as [|f IH]; intros p tries u ini; cbn [fetch]; destruct (site u) as [code links|code|code|code [t|]]; cbn [length].
-    all: try (rewrite app_length; pose proof (flush_length (children scope p u links)); cbn; lia).
-    all: try lia.
-    destruct (scope true t p tries); [specialize (IH p tries t false)|cbn]; lia.
-  Qed.
-
-  Definition plan_bound : nat := 2 * maxredir + 4.
-  Lemma plan_length p tries : (length (plan p tries) <= plan_bound)%nat.
-  Proof.
-    unfold Engine.plan, plan_bound. destruct (scope false (ri_url p) p tries); [apply fetch_length | cbn; lia].
   Qed.
 
   (* an action still owed by an item is an action of its plan *)
